@@ -28,3 +28,12 @@ Definition py_index {A} (xs : list A) (i : Z) : option A :=
 (* `x or k` for x : int | None *)
 Definition py_or_optZ (x : option Z) (k : Z) : Z :=
   match x with Some f => if f =? 0 then k else f | None => k end.
+
+(* xs[a:] for an arbitrary integer a (negative a counts from the end, clamped at 0) *)
+Definition py_slice_from {A} (xs : list A) (a : Z) : list A :=
+  if a <? 0 then skipn (Z.to_nat (Z.max 0 (Z.of_nat (length xs) + a))) xs
+  else skipn (Z.to_nat a) xs.
+
+(* max(f x for x in xs): None = ValueError (empty sequence) *)
+Definition py_max_map {A} (f : A -> Z) (xs : list A) : option Z :=
+  match xs with [] => None | x :: t => Some (fold_left Z.max (map f t) (f x)) end.
